@@ -32,14 +32,18 @@ type ProgParam struct {
 
 // ProgFunc is one function of the chain.
 type ProgFunc struct {
-	Name     string      `json:"name"`           // "f3" or "m3"
-	Method   bool        `json:"method"`         // pointer-receiver method
-	Recv     string      `json:"recv,omitempty"` // receiver type name (T or U)
-	Params   []ProgParam `json:"params"`         // without the receiver
-	CallLine int         `json:"call_line"`      // line of the call to the next function (or of the panic)
-	Words    int         `json:"words"`          // total words including the receiver
-	File     string      `json:"file,omitempty"` // source file holding the function ("" = main.go)
+	Name     string      `json:"name"`               // "f3" or "m3"
+	Method   bool        `json:"method"`             // pointer-receiver method
+	Recv     string      `json:"recv,omitempty"`     // receiver type name (T or U)
+	Params   []ProgParam `json:"params"`             // without the receiver
+	CallLine int         `json:"call_line"`          // line of the call to the next function (or of the panic)
+	Words    int         `json:"words"`              // total words including the receiver
+	File     string      `json:"file,omitempty"`     // source file holding the function ("" = main.go)
 	Deferred bool        `json:"deferred,omitempty"` // the next function is called by a defer statement: this frame's line is the closing brace
+	// Recur: the function calls itself this many times (same arguments) before it calls the next one: its frame
+	// occurs Recur+1 times in the traceback, the outer ones on RecurLine.
+	Recur     int `json:"recur,omitempty"`
+	RecurLine int `json:"recur_line,omitempty"`
 }
 
 // Prog is a generated program.
@@ -227,6 +231,9 @@ func GenProgFiles(r *core.Rand, n int, twoFiles bool) *Prog {
 			f.Words += 3
 		}
 		f.Deferred = r.Chance(1, 5)
+		if !f.Deferred && r.Chance(1, 6) {
+			f.Recur = 1 + r.Intn(2)
+		}
 		p.Funcs = append(p.Funcs, f)
 	}
 	type fileW struct {
@@ -274,6 +281,7 @@ func GenProgFiles(r *core.Rand, n int, twoFiles bool) *Prog {
 		}
 		return f.Name + "(" + strings.Join(lits, ", ") + ")"
 	}
+	var recVars []string
 	for i := range p.Funcs {
 		f := &p.Funcs[i]
 		out := f1
@@ -296,7 +304,31 @@ func GenProgFiles(r *core.Rand, n int, twoFiles bool) *Prog {
 		} else {
 			wr(out, fmt.Sprintf("func %s(%s) {", f.Name, strings.Join(ps, ", ")))
 		}
-		if f.Deferred {
+		if f.Recur > 0 {
+			// the same function several times on the stack, with the same arguments
+			var names []string
+			for k := range f.Params {
+				n := fmt.Sprintf("p%d", k)
+				if strings.HasPrefix(f.Params[k].Kind, "...") {
+					n += "..."
+				}
+				names = append(names, n)
+			}
+			self := f.Name + "(" + strings.Join(names, ", ") + ")"
+			if f.Method {
+				self = "t." + self
+			}
+			wr(out, fmt.Sprintf("\tif gRec%d > 0 {", i))
+			wr(out, fmt.Sprintf("\t\tgRec%d--", i))
+			wr(out, "\t\t"+self)
+			f.RecurLine = out.line
+			wr(out, "\t\treturn")
+			wr(out, "\t}")
+			wr(out, "\t"+call(i+1))
+			f.CallLine = out.line
+			wr(out, "}")
+			recVars = append(recVars, fmt.Sprintf("var gRec%d = %d", i, f.Recur))
+		} else if f.Deferred {
 			// the callee runs when this function returns: the frame is reported on the line of the closing brace
 			wr(out, "\tdefer "+call(i+1))
 			wr(out, "}")
@@ -330,6 +362,9 @@ func GenProgFiles(r *core.Rand, n int, twoFiles bool) *Prog {
 	w("\tgBigStr = string(make([]byte, 600000))")
 	w(")")
 	w("")
+	for _, v := range recVars {
+		w(v)
+	}
 	p.Src = f1.b.String()
 	if twoFiles {
 		p.Src2 = f2.b.String()
